@@ -183,6 +183,22 @@ let handle () =
     (match run_model fuel steps with
      | None -> "error model run fails (fuel or an entry set twice)"
      | Some res -> String.concat " || " (List.map (fun (evs, pend) -> String.concat " ; " (List.map ev evs) ^ " | " ^ string_of_int (List.length pend)) res))
+  | "ctr" ->
+    (* ctr <nrules> { <part I|A|D|F> <head n a | d k a.. | c k a.. | x> <nbody> { <sgn> <at a past | in a | kI | kF> } } : Model/CoreRun.transform *)
+    let sg () = match next () with "p" -> Pos0 | "n" -> Neg1 | "m" -> NegNeg0 | s -> failwith ("sgn " ^ s) in
+    let batom () = match next () with "at" -> let a = nat () in let p = nat () in BAt (a, p) | "in" -> BInit (nat ()) | "kI" -> BKwI | "kF" -> BKwF | s -> failwith ("batom " ^ s) in
+    let hd () = match next () with "n" -> SNorm (nat ()) | "d" -> SDisj (list nat) | "c" -> SChoice0 (list nat) | "x" -> SCons | s -> failwith ("head " ^ s) in
+    let pt () = match next () with "I" -> Initial0 | "A" -> Always0 | "D" -> Dynamic0 | "F" -> Final0 | s -> failwith ("part " ^ s) in
+    let rules = list (fun () -> let p = pt () in let h = hd () in let b = list (fun () -> let s = sg () in let a = batom () in (s, a)) in { sp0 = p; sh0 = h; sb0 = b }) in
+    let tm = function Tt n -> Printf.sprintf "t-%d" (int_of_nat n) | T0 -> "0" in
+    let pa = function PU (a, t) -> Printf.sprintf "U%d@%s" (int_of_nat a) (tm t) | PI -> "I" | PF -> "F" in
+    let sgs = function Pos0 -> "p" | Neg1 -> "n" | NegNeg0 -> "m" in
+    let ids l = String.concat "," (List.map (fun a -> string_of_int (int_of_nat a)) l) in
+    let show r =
+      (match r.pp with OInitial -> "initial" | OAlways -> "always" | ODynamic -> "dynamic") ^ " | " ^
+      (match r.ph with SNorm a -> "n " ^ string_of_int (int_of_nat a) | SDisj l -> "d " ^ ids l | SChoice0 l -> "c " ^ ids l | SCons -> "x") ^ " | " ^
+      String.concat " " (List.map (fun (s, a) -> sgs s ^ pa a) r.pb) in
+    String.concat " ;; " (List.map (fun r -> show (transform r)) rules)
   | "defaults" ->
     Printf.sprintf "%d %s %s" (int_of_nat default_imin_gen)
       (match default_imax_gen with None -> "-" | Some m -> string_of_int (int_of_nat m))
